@@ -18,6 +18,7 @@ import (
 	fdo "github.com/fido-device-onboard/go-fdo"
 	"github.com/fido-device-onboard/go-fdo/blob"
 	"github.com/fido-device-onboard/go-fdo/cbor"
+	"github.com/fido-device-onboard/go-fdo/cose"
 	"github.com/fido-device-onboard/go-fdo/kex"
 	"github.com/fido-device-onboard/go-fdo/protocol"
 	"github.com/fido-device-onboard/go-fdo/serviceinfo"
@@ -37,6 +38,8 @@ type Action struct {
 	K     int    `json:"k,omitempty"`
 	Reuse bool   `json:"reuse,omitempty"`
 	Cut   Cut    `json:"cut"`
+	// UseBlob: TO2 is given the rendezvous blob of the last TO1
+	UseBlob bool `json:"useblob,omitempty"`
 }
 
 // Event is the projection after an action.
@@ -54,6 +57,9 @@ type Event struct {
 	OwnerN  int    `json:"ownerN"`
 	AgreeM  bool   `json:"agreeM"`
 	AgreeO  bool   `json:"agreeO"`
+	UseBlob bool   `json:"useblob"`
+	RvLive  bool   `json:"rvLive"`  // a registration for the credential's GUID exists and has not expired (SQL probe)
+	HasBlob bool   `json:"hasBlob"` // the device holds a blob from its last TO1
 	Err     string `json:"err,omitempty"`
 	Note    string `json:"note,omitempty"`
 	Panic   string `json:"panic,omitempty"`
@@ -67,6 +73,7 @@ type Config struct {
 	Kex    string `json:"kex,omitempty"`
 	Cipher int    `json:"cipher,omitempty"`
 	RvInfo bool   `json:"rvinfo,omitempty"` // non-empty rendezvous info in credentials
+	AIO    bool   `json:"aio,omitempty"`    // all-in-one deployment: one database, fdo.AllInOne callbacks in DI
 }
 
 type lifeOwnerMod struct{}
@@ -99,11 +106,13 @@ type Exec struct {
 	oidx   int
 	Events []Event
 	run    int
+	blob   *cose.Sign1[protocol.To1d, []byte] // from the last TO1
+	held   *fdo.Voucher                       // returned by a failed resale
 }
 
 // New creates the world (separate manufacturer / owner databases).
 func New(cfg Config, run int) *Exec {
-	opt := world.Options{Kind: world.KeyKind(cfg.Kind), Enc: protocol.KeyEncoding(cfg.Enc), Separate: true}
+	opt := world.Options{Kind: world.KeyKind(cfg.Kind), Enc: protocol.KeyEncoding(cfg.Enc), Separate: !cfg.AIO, AIO: cfg.AIO}
 	opt.OwnerModules = func(context.Context, string, serviceinfo.Devmod, []string) []world.NamedOwnerModule {
 		var ms []world.NamedOwnerModule
 		for i := 1; i <= cfg.Mods; i++ {
@@ -178,7 +187,7 @@ func cutHook(c Cut) *world.Hook {
 
 // Do executes an action and appends the projection.
 func (e *Exec) Do(a Action) Event {
-	ev := Event{Run: e.run, I: len(e.Events) + 1, A: a.A, K: a.K, Reuse: a.Reuse, CutKind: a.Cut.Kind, CutT: a.Cut.T}
+	ev := Event{Run: e.run, I: len(e.Events) + 1, A: a.A, K: a.K, Reuse: a.Reuse, CutKind: a.Cut.Kind, CutT: a.Cut.T, UseBlob: a.UseBlob}
 	if ev.CutKind == "" {
 		ev.CutKind = "none"
 	}
@@ -217,7 +226,14 @@ func (e *Exec) Do(a Action) Event {
 			for i := 1; i <= e.Cfg.Mods; i++ {
 				mods[fmt.Sprintf("m%d", i)] = lifeDevMod{}
 			}
-			cred, err := e.W.RunTO2(ctx, e.Dev, nil, world.TO2Opts{Kex: kex.Suite(e.Cfg.Kex), Cipher: kex.CipherSuiteID(e.Cfg.Cipher), Modules: mods}, cutHook(a.Cut))
+			var to1d *cose.Sign1[protocol.To1d, []byte]
+			if a.UseBlob {
+				if e.blob == nil {
+					ev.Note = "harness: useblob without a blob"
+				}
+				to1d = e.blob
+			}
+			cred, err := e.W.RunTO2(ctx, e.Dev, to1d, world.TO2Opts{Kex: kex.Suite(e.Cfg.Kex), Cipher: kex.CipherSuiteID(e.Cfg.Cipher), Modules: mods}, cutHook(a.Cut))
 			ev.OK = err == nil
 			if err != nil {
 				ev.Err = err.Error()
@@ -251,6 +267,74 @@ func (e *Exec) Do(a Action) Event {
 			ev.OK = err == nil
 			if err != nil {
 				ev.Err = err.Error()
+			}
+		case "resellbad":
+			// a next owner key the voucher cannot be extended to (other curve / other RSA size)
+			other := map[world.KeyKind]world.KeyKind{world.P256: world.P384, world.P384: world.P256}[e.W.Opt.Kind]
+			if other == "" {
+				if e.W.Opt.Kind.Bits() == 2048 {
+					other = world.PKCS3072
+				} else {
+					other = world.RSA2048
+				}
+			}
+			bad := e.W.Keys.NewParty("badnext", other)
+			ov, err := e.W.TO2.Resell(ctx, e.Dev.Cred.GUID, bad.Key.Public(), nil)
+			ev.OK = err == nil
+			if err != nil {
+				ev.Err = err.Error()
+				if ov == nil {
+					ev.Note = "failed resale returned no voucher"
+				}
+				e.held = ov
+			} else {
+				ev.Note = "resale to a key of another type or size succeeded"
+			}
+		case "restore":
+			err := fmt.Errorf("nothing held")
+			if e.held != nil {
+				err = e.W.OwnerStore.DB.AddVoucher(ctx, e.held)
+				e.held = nil
+			}
+			ev.OK = err == nil
+			if err != nil {
+				ev.Err = err.Error()
+			}
+		case "resellmissing":
+			next := e.owner(e.oidx + 1)
+			ov, err := e.W.TO2.Resell(ctx, e.Dev.Cred.GUID, next.Key.Public(), nil)
+			ev.OK = err == nil
+			if err != nil {
+				ev.Err = err.Error()
+			}
+			if ov != nil {
+				ev.Note = "resale of an unknown device returned a voucher"
+			}
+		case "register":
+			_, err := e.W.RunTO0(ctx, e.Dev.Cred.GUID, 3600, nil)
+			ev.OK = err == nil
+			if err != nil {
+				ev.Err = err.Error()
+			}
+		case "expire":
+			res, err := e.W.RVStore.DB.DB().Exec(`UPDATE rv_blobs SET exp = ? WHERE guid = ?`, time.Now().Unix()-10, e.Dev.Cred.GUID[:])
+			ev.OK = err == nil
+			if err == nil {
+				if n, _ := res.RowsAffected(); n != 1 {
+					ev.OK = false
+					ev.Err = fmt.Sprintf("expire touched %d rows", n)
+				}
+			} else {
+				ev.Err = err.Error()
+			}
+		case "locate":
+			to1d, err := e.W.RunTO1(ctx, e.Dev, nil)
+			ev.OK = err == nil
+			e.blob = nil
+			if err != nil {
+				ev.Err = err.Error()
+			} else {
+				e.blob = to1d
 			}
 		case "persist":
 			err := e.persist()
@@ -336,6 +420,13 @@ func (e *Exec) project(ev *Event) {
 	ev.OwnerN = e.count(e.W.OwnerStore)
 	ev.AgreeM = e.agrees(e.W.MfgStore)
 	ev.AgreeO = e.agrees(e.W.OwnerStore)
+	ev.HasBlob = e.blob != nil
+	if e.Dev.Cred != nil {
+		var exp int64
+		if err := e.W.RVStore.DB.DB().QueryRow(`SELECT exp FROM rv_blobs WHERE guid = ?`, e.Dev.Cred.GUID[:]).Scan(&exp); err == nil {
+			ev.RvLive = exp > time.Now().Unix()
+		}
+	}
 }
 
 var _ = fdo.ErrNotFound
